@@ -320,6 +320,15 @@ func TestC18(t *testing.T) {
 					}
 				}
 			}
+			// lines that begin with a control character some systems give a meaning (end-of-file marker, end of
+			// transmission, form feed, NUL): bytes of a line like any other, and what follows them is still read
+			if ctl := map[string]string{
+				"srt": "1\n00:00:01,000 --> 00:00:02,000\na\n\x1ab\n\n2\n00:00:03,000 --> 00:00:04,000\n\x04c\n\x0cd\n\n\x1a\n3\n00:00:05,000 --> 00:00:06,000\ne\n\x1a\n",
+				"vtt": "WEBVTT\n\n00:00:01.000 --> 00:00:02.000\na\n\x1ab\n\n00:00:03.000 --> 00:00:04.000\n\x04c\n\x0cd\n\nNOTE x\n\x1a\n\n00:00:05.000 --> 00:00:06.000\ne\n\x1a\n",
+				"ssa": "[Script Info]\nTitle: t\n\x1a\n\n[Events]\nFormat: Marked, Start, End, Style, Name, MarginL, MarginR, MarginV, Effect, Text\nDialogue: Marked=0,0:00:01.00,0:00:02.00,,,0,0,0,,a\n\x1a\nDialogue: Marked=0,0:00:03.00,0:00:04.00,,,0,0,0,,\x04c\n\x0cjunk\nDialogue: Marked=0,0:00:05.00,0:00:06.00,,,0,0,0,,e\n\x1a\n",
+			}[format]; ctl != "" {
+				docs = append(docs, []byte(ctl))
+			}
 			for _, doc := range docs {
 				if _, err := readFormat(format, bytes.NewReader(doc), readOpts{}); err != nil {
 					continue
